@@ -1377,6 +1377,27 @@ class Authenticated(BaseClientHandler):
 
     ##################################################################
     #
+    async def _pending_expunges_gate(self, cmd: IMAPClientCommand) -> None:
+        """
+        FETCH, STORE and SEARCH check for pending EXPUNGEs when they arrive,
+        but they may then have to wait for a conflicting command - another
+        client's EXPUNGE for example. If messages were expunged while the
+        command waited, the message sequence numbers it was sent with (and
+        the ones its results would be reported with) are no longer the ones
+        this client knows: refuse it like we would have had it arrived now.
+        A UID command may be sent the EXPUNGEs and carry on. Anything else
+        that was queued meanwhile (a new message count for example) is sent
+        now, before the results that may already refer to it.
+
+        Args:
+            cmd: The IMAP command that has just been let through
+        """
+        if self.pending_expunges() and not cmd.uid_command:
+            raise No("There are pending EXPUNGEs.")
+        await self.send_pending_notifications()
+
+    ##################################################################
+    #
     async def do_search(self, cmd: IMAPClientCommand) -> None:
         """
         Search... NOTE: Can not send untagged EXPUNGE messages during this
@@ -1410,7 +1431,9 @@ class Authenticated(BaseClientHandler):
             else:
                 raise No("There are pending untagged responses")
 
-        async with cmd.ready_and_okay(self.mbox):
+        async with cmd.ready_and_okay(
+            self.mbox, gate=self._pending_expunges_gate
+        ):
             try:
                 results = await self.mbox.search(
                     cmd.search_key, cmd.uid_command, cmd.timeout_cm
@@ -1473,7 +1496,9 @@ class Authenticated(BaseClientHandler):
 
         self.fetch_while_pending_count = 0
         try:
-            async with cmd.ready_and_okay(self.mbox):
+            async with cmd.ready_and_okay(
+                self.mbox, gate=self._pending_expunges_gate
+            ):
                 msg_set = (
                     sorted(cmd.msg_set_as_set) if cmd.msg_set_as_set else []
                 )
@@ -1568,7 +1593,9 @@ class Authenticated(BaseClientHandler):
         #     stuff here.
         #
         try:
-            async with cmd.ready_and_okay(self.mbox):
+            async with cmd.ready_and_okay(
+                self.mbox, gate=self._pending_expunges_gate
+            ):
                 msg_set = (
                     sorted(cmd.msg_set_as_set) if cmd.msg_set_as_set else []
                 )
